@@ -158,7 +158,7 @@ fn random_program(rng: &mut Rng, len: usize, maxcap: u64, nkeys: u64) -> Value {
             0..=54 => json!({"op": "touch", "k": k}),
             55..=66 => json!({"op": "remove", "k": k}),
             67..=74 => json!({"op": "evict_tail"}),
-            75..=79 => json!({"op": "evict_to_target", "n": 1 + rng.below(4)}),
+            75..=79 => json!({"op": "evict_to_target", "n": rng.below(5)}),
             80..=83 => json!({"op": "bump"}),
             84..=89 => json!({"op": "checkpoint"}),
             90..=92 => json!({"op": "load", "g": 1 + rng.below(4)}),
